@@ -74,7 +74,9 @@ func (s *segmentMetadata) getIndex(vecIdx VectorIndex, txtIdx TextIndex, metaIdx
 	}
 
 	// Create new hybrid index
-	idx := NewHybridSearchIndex(vecIdx, txtIdx, metaIdx)
+	// Every loaded segment owns its sub-indexes: deserialising into the shared
+	// templates would overwrite the data of every other segment and memtable.
+	idx := NewHybridSearchIndex(newVectorIndexLike(vecIdx), newTextIndexLike(txtIdx), newMetadataIndexLike(metaIdx))
 
 	// Open all segment files
 	hybridFile, err := os.Open(s.hybridPath)
